@@ -247,7 +247,8 @@ class Interp:
     def __init__(self, repo, natives=None, method_overrides=None, global_overrides=None, lenient=(),
                  stmt_hook=None, int_hook=None, max_steps=400000, max_depth=40):
         self.repo = repo
-        self.natives = natives or {}
+        self.natives = dict(_default_natives(self))
+        self.natives.update(natives or {})
         self.method_overrides = method_overrides or {}  # (class name, method) -> pyfunc(interp, self, *args, **kw)
         self.global_overrides = global_overrides or {}  # name or (relpath, name) -> value
         self.lenient = tuple(lenient)  # ExtRef prefixes whose calls are ignored (logging)
@@ -1351,6 +1352,48 @@ class Lin(PyModel):
     def __format__(self, spec):
         return repr(self)
 
+
+
+def _default_natives(it):
+    """pure library functions that are defined on model values through their comparisons only
+    (order-type points implement <, <=, ==): bisect, a few itertools/functools/operator members"""
+    import bisect as _bisect
+    import itertools as _it
+
+    def keyf(key):
+        return None if key is None else (lambda x: it.call(key, (x,)))
+
+    def bl(a, x, lo=0, hi=None, key=None):
+        return _bisect.bisect_left(a, x, lo, len(a) if hi is None else hi, key=keyf(key))
+
+    def br(a, x, lo=0, hi=None, key=None):
+        return _bisect.bisect_right(a, x, lo, len(a) if hi is None else hi, key=keyf(key))
+
+    def insl(a, x, lo=0, hi=None, key=None):
+        _bisect.insort_left(a, x, lo, len(a) if hi is None else hi, key=keyf(key))
+
+    def insr(a, x, lo=0, hi=None, key=None):
+        _bisect.insort_right(a, x, lo, len(a) if hi is None else hi, key=keyf(key))
+
+    def takewhile(pred, seq):
+        return _Iter(list(_it.takewhile(lambda x: it.truth(it.call(pred, (x,))), it.iterate(seq))))
+
+    def dropwhile(pred, seq):
+        return _Iter(list(_it.dropwhile(lambda x: it.truth(it.call(pred, (x,))), it.iterate(seq))))
+
+    def chain(*seqs):
+        return _Iter([x for q in seqs for x in it.iterate(q)])
+
+    def reduce(f, seq, *init):
+        import functools
+        return functools.reduce(lambda a, b: it.call(f, (a, b)), it.iterate(seq), *init)
+
+    return {
+        "bisect.bisect_left": bl, "bisect.bisect_right": br, "bisect.bisect": br,
+        "bisect.insort_left": insl, "bisect.insort_right": insr, "bisect.insort": insr,
+        "itertools.takewhile": takewhile, "itertools.dropwhile": dropwhile, "itertools.chain": chain,
+        "functools.reduce": reduce,
+    }
 
 
 _BUILTIN_ATTRS = {
